@@ -8,6 +8,8 @@ CONSTANTS MaxActs, MaxDepth, MaxRoutes
 GroupPrefixes == { <<"/", "a">>, <<"b">>, <<"/", "c", "/">>, <<"/">>, <<>> }     \* incl. the root prefixes "/" and ""
 RoutePaths == { <<"/", "x">>, <<"y", "/">>, <<>>, <<"/", "a", "x">> }      \* "/ax" begins with the text of the prefix "/a"
 
+ResBases == { <<"/">>, <<>>, <<"/", "a", "/">> }       \* Resource("/", ctl), Resource("", ctl), Resource("/a/", ctl)
+
 Init == RegInit
 Next == /\ Len(prog) < MaxActs
         /\ \/ \E p \in GroupPrefixes, n \in 0..1 : Depth < MaxDepth /\ Enter(p, n, FALSE)
@@ -15,6 +17,7 @@ Next == /\ Len(prog) < MaxActs
            \/ Exit
            \/ \E n \in 1..2 : Use(n)
            \/ \E p \in RoutePaths, n \in 0..1 : Len(routes) < MaxRoutes /\ Add(p, n)
+           \/ \E b \in ResBases, n \in 0..1 : Len(routes) < MaxRoutes /\ Res(b, n)
            \/ Len(routes) > 0 /\ RouteUse(Len(routes), 1)
 
 Complete == saved = <<>> /\ Len(routes) >= 1
